@@ -46,14 +46,19 @@ def attach(rec):
     wrap(DataProviderLinked, "align_index", rec=rec, key="mon:align_index")
 
 
-def make_case(axes, tol, method, weights=None, seed=0, nt=None, idxdep=False):
+# dataset labels whose concatenations collide (the provider names a group of datasets by the joined labels and has to keep
+# different member sets apart): a+b == ab, x+yx == xy+x, ...
+COLLISION_POOLS = [["a", "b", "ab", "ba"], ["x", "yx", "xy", "xyx"], ["d1", "d", "1d", "d11"], ["run", "run_", "_run", "run_run"]]
+
+
+def make_case(axes, tol, method, weights=None, seed=0, nt=None, idxdep=False, labels=None):
     datasets = []
     id0 = 0
     rng = np.random.default_rng(seed)
     for d, g in enumerate(axes):
         n = int(nt[d]) if nt is not None else 4 + d
         t = (np.arange(n) * 0.5).tolist()
-        datasets.append({"label": f"ds{d + 1}", "group": "g1", "t": t, "g": [float(x) for x in g], "layout": "mg", "megacomplex": ["m1"],
+        datasets.append({"label": labels[d] if labels else f"ds{d + 1}", "group": "g1", "t": t, "g": [float(x) for x in g], "layout": "mg", "megacomplex": ["m1"],
                          "dseed": int(rng.integers(2**31)), "id0": id0, "weight": "dataset" if (weights and weights[d]) else None,
                          "scale": None, "mc_scale": None})
         id0 += n * len(g)
@@ -266,9 +271,24 @@ def run_shard(spec, rec):
         tol = float(rng.choice([0.0, 0.05, 0.1, 0.25, 0.3, 0.5, 0.75, 1.0, 2.0]))
         method = METHODS[int(rng.integers(3))]
         weights = [bool(rng.integers(2)) for _ in range(nds)]
-        case = make_case(axes, tol, method, weights=weights, seed=int(rng.integers(2**31)), nt=rng.integers(3, 7, nds))
+        labels = None
+        if i % 4 in (1, 3):
+            pool = COLLISION_POOLS[int(rng.integers(len(COLLISION_POOLS)))]
+            labels = [pool[k] for k in rng.permutation(len(pool))[:nds]]
+            if i % 4 == 1 and nds >= 3:
+                # the dataset named like the concatenation of two others lives alone on its part of the axis, the two
+                # others share points: two different member sets with the same joined name, and no longer name around
+                labels = [pool[0], pool[1], pool[2]] + [l for l in labels if l not in pool[:3]][: nds - 3]
+                axes[2] = [float(x) + 100.0 for x in axes[2]]
+                axes[1] = sorted(set(axes[1]) | set(axes[0][: 1 + len(axes[0]) // 2]))
+                for k in range(3, nds):
+                    axes[k] = [float(x) + 200.0 + 100.0 * k for x in axes[k]]
+                perm = list(rng.permutation(nds))
+                labels, axes, weights = [labels[k] for k in perm], [axes[k] for k in perm], [weights[k] for k in perm]
+            rec.features["colliding-labels"] += 1
+        case = make_case(axes, tol, method, weights=weights, seed=int(rng.integers(2**31)), nt=rng.integers(3, 7, nds), labels=labels)
         nt = check_provider(case, rec)
-        rec.case(("rand", tuple(map(tuple, axes)), tol, method), nt, sample=case if i == 0 else None, features=[f"random:n={nds}", f"method={method}"])
+        rec.case(("rand", tuple(map(tuple, axes)), tol, method, tuple(labels or ())), nt, sample=case if i == 0 else None, features=[f"random:n={nds}", f"method={method}"])
         if i < spec["nopt"]:
             check_optimize(case, rec)
 
